@@ -137,6 +137,18 @@ fn construct(r: &RTx, variant: u64) -> Result<Vec<u8>, String> {
                 tx.prepend_output(&mk_out(ro)?);
             }
         }
+        3 => {
+            // inputs carrying the extended (non-wire) annotations must still serialise to the wire form
+            for (k, ri) in r.inputs.iter().enumerate() {
+                let mut i = mk_in(ri)?;
+                i.set_satoshis(1000 + k as u64);
+                i.set_locking_script(&Script::from_bytes(&[0x76, 0xa9, 0x01, k as u8, 0x88, 0xac]).map_err(|e| e.to_string())?);
+                tx.add_input(&i);
+            }
+            for ro in &r.outputs {
+                tx.add_output(&mk_out(ro)?);
+            }
+        }
         _ => {
             let ins: Result<Vec<TxIn>, String> = r.inputs.iter().map(mk_in).collect();
             let outs: Result<Vec<TxOut>, String> = r.outputs.iter().map(mk_out).collect();
@@ -214,7 +226,7 @@ fn eval_inner(b: &[u8], env: &c02::Env, acc: &mut Acc, case: &Case, desc: &dyn F
                         Ok(Ok(hb)) if hb == b => {}
                         other => v.bad("from_hex/kind=differs-from-from_bytes", format!("{:?}", other.map(|r| r.map(|x| hx(&x)).map_err(|e| e.to_string())))),
                     }
-                    for variant in 0..3 {
+                    for variant in 0..4 {
                         v.acc.transitions += 1;
                         match guard(|| construct(r, variant)) {
                             Ok(Ok(cb)) => {
@@ -408,6 +420,24 @@ pub fn spaces(tier: Tier) -> Vec<Space> {
             }
             let b = tx.encode();
             let d = || json!({"script_len": len, "realisation": c[1], "position": c[2]});
+            eval_tx_bytes(&b, &e, acc, case, &d);
+        }));
+    }
+    // S3b: every script length 0..=N (interior lengths, not only boundaries), two realisations, in input and output position
+    {
+        let e = env.clone();
+        let maxlen: u64 = if tier.is_thorough() { 4200 } else { 1100 };
+        v.push(Space::new("scriptlen-sweep", (maxlen + 1) * 2 * 2, move |case, acc| {
+            let c = coords(case.idx, &[maxlen + 1, 2, 2]);
+            let s = script_of_len(c[0] as usize, c[1]);
+            let mut tx = RTx { version: 2, locktime: 0, inputs: vec![simple_in(0)], outputs: vec![simple_out(0)] };
+            if c[2] == 0 {
+                tx.inputs[0].script = s;
+            } else {
+                tx.outputs[0].script = s;
+            }
+            let b = tx.encode();
+            let d = || json!({"script_len": c[0], "realisation": c[1], "position": c[2]});
             eval_tx_bytes(&b, &e, acc, case, &d);
         }));
     }
